@@ -112,7 +112,7 @@ def build_once(g, scenario, work, slot):
         os.makedirs(cwd, exist_ok=True)
         od = os.path.join(work, "o3", g.gid)
         os.makedirs(od, exist_ok=True)
-        out = os.path.join(od, "a-much-longer-output-name.%s.bin" % g.gid)
+        out = os.path.join(od, "a-much-longer-output-name-%s-bin" % g.gid)
         tmp = os.path.join(work, "t3", "slot%d" % slot)
         written = out + g.suffix()
     try:
@@ -305,7 +305,9 @@ def run(ctx):
         groups.append(Group(p, "package", "-", None, None))
         for backend in ("cannon", "boots"):
             for gc in ("swiper", "copy"):
-                groups.append(Group(p, "exe", backend, gc, None))
+                # quick: every program is linked with two of the four (generator, collector) pairs, alternating
+                if not ctx.quick() or i < 4 or ((backend == "cannon") == (gc == "swiper")) == (i % 2 == 0):
+                    groups.append(Group(p, "exe", backend, gc, None))
                 # .s: both collectors for x64; arm64 (optimizing generator only) alternates the collector
                 groups.append(Group(p, "asm", backend, gc, "x64"))
                 if backend == "boots" and (gc == "swiper") == (i % 2 == 0):
